@@ -163,32 +163,64 @@ def run(ctx):
                 meta.append({"kind": kind, "n": n, "rank": rank, "outcome": o[0] if o[0] == "err" else int(s_.shape[0])})
                 key = "%s/%s" % (kind, "frac" if isinstance(rank, float) else "int")
                 dist[key] = dist.get(key, 0) + 1
-        # through compute_L: full_nystroem and sparse_nystroem factors
+        # through compute_L: full_nystroem and sparse_nystroem factors, against an independent NumPy oracle:
+        # the spectrum of K + max(sigma^2, jitter) I (full) / of K_xu (K_uu + .. I)^-1 K_ux (sparse)
         from mellon.parameters import compute_L
         from mellon.cov import Matern52, ExpQuad
         nfit = 0
-        for trial in range(12 if ctx.thorough else 4):
+        settings = [(ExpQuad, 3.0, 0.5), (Matern52, 1.0, 0.5), (Matern52, 0.3, 0), (ExpQuad, 1.0, 0)]
+        if ctx.thorough:
+            settings += [(k_, l_, s_) for k_ in (Matern52, ExpQuad) for l_ in (0.3, 1.0, 3.0) for s_ in (0, 0.1, 0.5)]
+        for trial, (kern, ls_, sigma) in enumerate(settings):
             n = rng.choice([8, 15, 30])
             d = rng.choice([1, 2, 5])
             x = np.asarray([[rng.gauss(0, 1) for _ in range(d)] for _ in range(n)])
-            cov = rng.choice([Matern52, ExpQuad])(rng.choice([0.3, 1.0, 3.0]))
-            for gp_type, lm in (("full_nystroem", None), ("sparse_nystroem", x[: max(3, n // 2)])):
-                for rank in [0.5, 0.9, 0.99, 2, 3]:
+            cov = kern(ls_)
+            jitter = 1e-6
+            s2 = max(sigma ** 2, jitter)
+            K = np.asarray(cov(x, x), dtype=float)
+            for gp_type, lm in (("full_nystroem", None), (None, None), ("sparse_nystroem", x[: max(4, n // 2)] + 0.01)):
+                if lm is None:
+                    target_mat = K + s2 * np.eye(n)
+                else:
+                    C = np.asarray(cov(x, lm), dtype=float)
+                    Wm = np.asarray(cov(lm, lm), dtype=float) + s2 * np.eye(lm.shape[0])
+                    target_mat = C @ np.linalg.solve(Wm, C.T)
+                ev, evec = np.linalg.eigh((target_mat + target_mat.T) / 2)
+                for rank in [1, 2, 3, n - 1, 0.5, 0.9, 0.99]:
                     if isinstance(rank, int) and lm is not None and rank >= lm.shape[0]:
                         continue
-                    rec.clear()
-                    o = enc.outcome(lambda: compute_L(x, cov, gp_type=gp_type, landmarks=lm, rank=rank))
+                    o = enc.outcome(lambda: compute_L(x, cov, gp_type=gp_type, landmarks=lm, rank=rank, sigma=sigma, jitter=jitter))
                     nfit += 1
-                    if o[0] != "ok" or "s" not in rec:
-                        ctx.violation("C10|compute_L|%s|rank=%r|%s" % (gp_type, rank, o[1] if o[0] == "err" else "no-eigh"),
-                                      "compute_L failed", {"gp_type": gp_type, "rank": rank, "x": x.tolist()})
+                    desc = {"call": "mellon.parameters.compute_L(x, cov, gp_type, landmarks, rank, sigma, jitter)", "gp_type": gp_type,
+                            "rank": rank, "sigma": sigma, "jitter": jitter, "x": x.tolist(), "landmarks": None if lm is None else lm.tolist(),
+                            "cov": repr(cov)}
+                    if o[0] != "ok":
+                        ctx.violation("C10|compute_L|%s|rank=%r|%s" % (gp_type, rank, o[1]), "compute_L failed", desc)
                         continue
-                    s = rec["s"]           # the last eigh call is the rank-deciding one
-                    p_exp, robust = exact_expected(list(s), rank)
-                    if robust and p_exp is not None and o[1].shape != (n, p_exp):
-                        ctx.violation("C10|compute_L|%s|rank=%r" % (gp_type, rank), "factor has the wrong number of columns",
-                                      {"gp_type": gp_type, "rank": rank, "x": x.tolist(), "expected_cols": p_exp,
-                                       "observed_shape": list(o[1].shape), "eigenvalues": s.tolist()})
+                    Lf = np.asarray(o[1], dtype=float)
+                    pos = ev[ev > 1e-9 * ev[-1]]          # numerically positive part of the spectrum
+                    desc_sorted = pos[::-1]
+                    if isinstance(rank, int):
+                        p_exp, robust = min(rank, len(pos)), True
+                    else:
+                        pref = np.cumsum(desc_sorted)
+                        tgt = ev[ev > 0].sum() * rank
+                        p_exp = int(np.searchsorted(pref, tgt) + 1)
+                        robust = np.min(np.abs(pref - tgt)) > 1e-7 * pref[-1]
+                    if robust and Lf.shape != (n, p_exp):
+                        ctx.violation("C10|compute_L|%s|rank=%r|columns" % (gp_type, rank), "factor has the wrong number of columns",
+                                      dict(desc, expected_cols=p_exp, observed_shape=list(Lf.shape), spectrum=ev.tolist()))
+                        continue
+                    if robust:
+                        p = p_exp
+                        top = (evec[:, -p:] * ev[-p:]) @ evec[:, -p:].T
+                        err = np.abs(Lf @ Lf.T - top).max()
+                        gap_ok = p == len(ev) or (ev[-p] - ev[-p - 1]) > 1e-6 * ev[-1]
+                        if gap_ok and err > 1e-6 * max(1.0, ev[-1]):
+                            ctx.violation("C10|compute_L|%s|rank=%r|eigenpairs" % (gp_type, rank),
+                                          "L L^T is not the top-p eigen-truncation of the target matrix",
+                                          dict(desc, max_abs_error=float(err), kept=p))
         ctx.cov["compute_L_fits"] = nfit
     finally:
         dec.eigh = real_eigh
